@@ -293,6 +293,28 @@ CLAIMED = {
         design_ref='DESIGN.md 5/C11, 12'),
 }
 
+# round 4 (DESIGN 12.9): whole-function translations proved equal to the hand models; appended to the level text of each property
+ROUND4 = {
+    'C01': "Round 4 (Gen/ParseLoop.lean, Props/C01K.lean): the WHOLE `_create_table` (table-name clean-up, CREATE/INSERT texts, record loop with its column loop) and `read_pdb` (seven input forms, file system as a parameter) are translated statement by statement on every run and proved equal to the hand model for every list of lines and every input form (create_table_for_line_nf, genp_create_table_rows_eq_model, create_table_nf, genp_read_pdb_eq_model).",
+    'C02': "Round 4 (Gen/Fx.lean, Props/C02K.lean): `sql2pdb`, `exportpdb` and the accumulation of `data2pdb` are translated as effect programs and proved to write exactly Model.exportText / appendText of the translated lines (genf_sql2pdb_eq_model, genf_exportpdb_text).",
+    'C03': "Round 4 (Gen/Get.lean, Props/C03K2.lean): `get` is translated WHOLE (type check, column validation, per-model dispatch, SELECT-EXISTS key probes, keyword loop, chunked branch with its recursion, combined-limit error) and get_eq_model proves GenG.get = Model.get for every database, column string, keyword list and list length; get_xyz/get_residues/get_chains likewise.",
+    'C04': "Round 4 (Gen/Get.lean, Gen/ParseLoop.lean; Props/C04K2.lean, C04K3.lean): update_column, add_column, update_xyz and `_fix_chainID` are translated whole and proved equal to the hand model (update_column_eq_model, add_column_eq_model, genp_fix_chainID_eq_model); `update` with all shape checks before any modification (update_eq_model_partial / update_eq_model).",
+    'C06': "Round 4 (Gen/Sup.lean, Props/C06K2.lean): `get_rotation_matrix_quaternion` is translated whole (eigh a parameter) and the method dispatch too; the generated kernel equals the model (gensup_quaternion_eq_model, gensup_get_rotation_matrix_eq_model) and inherits properness and optimality (gensup_quaternion_proper, gensup_quaternion_optimal).",
+    'C07': "Round 4 (Gen/Sim.lean, Props/C07K2.lean): check_residues, get_identical_atoms, get_izone_rowID and the two SQL RMSD routes are translated whole; equalities with the hand model resp. stage decompositions around the kernel (gens_check_residues_eq_model, gens_get_identical_atoms_*, gens_get_izone_rowID_eq_model, gens_compute_lrmsd_pdb2sql_stages, ...).",
+    'C08': "Round 4 (Gen/Sim.lean, Props/C08K2.lean): compute_fnat_pdb2sql and compute_clashes are translated whole and proved equal to the hand model (gens_fnat_pdb2sql_core, gens_compute_clashes_eq_model - the code's <= at 3 A is kept: C08-F2).",
+    'C13': "Round 4 (Gen/Sup.lean, Props/C13K2.lean): the whole body of `superpose()` and `superpose.get_intersection` are translated and proved equal to the hand model - same updated table, same exception, same files written (gensup_superpose_eq_model, gensup_get_intersection_eq_model).",
+    'C15': "Round 4 (Gen/ParseLoop.lean, Gen/Many.lean; Props/C15K.lean, C15K2.lean): pdb2sql.__call__, many2sql.__init__/__call__/convert_input and interface.__init__ are translated whole and proved equal to Model.derive (genp_call_eq_parse, init_eq_model, call_eq_model, interface_init_eq_model, call_tables_are_selections).",
+    'C16': "Round 4 (Gen/Fx.lean, Py/Fx.lean; Props/C16K.lean): `_write_zone`, the file parts of read_zone / the zone branches / get_izone_rowID, the save and export branches and exportpdb are translated as effect PROGRAMS (free monad over the effect signature) and proved equal to the programs of Model/Effects.lean (genf_write_zone_eq_model, genf_*_zone_eq_model, genf_exportpdb_eq_model, ...).",
+    'C17': "Round 4 (Gen/Get.lean, Props/C17K2.lean): the chunked branch of `get` is inside get_eq_model (GenG.get = Model.get for every list length).",
+    'C18': "Round 4 (Gen/Align.lean, Props/C18K2.lean): align, align_interface, align_pca_vect, export_aligned, pca, get_max/min_pca_vect are translated whole and proved equal to the hand model (gena_align_eq_model, gena_align_interface_eq_model); when the generated call returns, the table underwent one proper rotation about the centroid, only coordinates changed and files appear exactly when export is requested (gena_align_returns).",
+    'C19': "Round 4 (Gen/Many.lean, Props/C19K2.lean): many2sql.intersect and get_all are translated whole and proved equal to the hand model (intersect_eq_model, get_all_eq_model, intersect_tables_gen).",
+    'C20': "Round 4 (Gen/Fx.lean, Props/C20K.lean): `_create_sql`, `_commit`, `_close` and the ordering in `__init__` are translated as effect programs and proved equal to the store model's steps; a scenario of TRANSLATED programs equals Model.C20.run, hence crash atomicity and names-are-data hold of the translated code (genf_runT_eq_run, genf_crash_atomic, genf_names_are_data).",
+}
+for _pid, _t in ROUND4.items():
+    CLAIMED[_pid]['text'] = CLAIMED[_pid]['text'] + ' ' + _t
+    if 'whole-function translation' not in CLAIMED[_pid]['technique']:
+        CLAIMED[_pid]['technique'] += ' + whole-function translation proved equal to the hand model (round 4)'
+
 checks = []
 for pid in ids:
     if pid in CLAIMED:
